@@ -380,6 +380,7 @@ func checkC13(p *Prog, r *Report) {
 		r.Cond(ok, "C13/RULES-SENT", "ClientRun sends filter rules before the list terminator", p.Pos(entry.Pos()), "rules loop / terminator / ReceiveFileList ordering not established")
 	}
 	checkListFraming(p, r, "C13/LIST-FRAMING")
+	checkExcludedLeavesNoTrace(p, r)
 	_ = nP
 	r.Uncovered("string semantics of the match (pattern == filepath.Base(name)), anchored patterns, rule grammar beyond the three prefixes")
 	r.Assume("foreign code calls only function values and interface methods it was handed")
@@ -493,4 +494,81 @@ func checkFirstMatch(p *Prog, r *Report, listMatches, ruleMatches *ssa.Function,
 		}
 	}
 	CheckTable(p, r, rule, "filterRuleList.matches", pe, spec, accept)
+}
+
+// checkExcludedLeavesNoTrace — C13/EXCLUDED-NO-TRACE: an entry the rules
+// exclude must leave no trace in what is sent afterwards. In the walk callback
+// the filter decision for the entry dominates every write to state that
+// outlives the callback (fields of the walker, of the file list, of anything
+// reached through a pointer) and every write to the wire buffer: a "previous
+// entry" (name prefix, mode, mtime) updated before the decision makes the
+// sender and the receiver disagree about the entry that follows an excluded one.
+func checkExcludedLeavesNoTrace(p *Prog, r *Report) {
+	rule := "C13/EXCLUDED-NO-TRACE"
+	r.Rule(rule, "in the sender's walk callback the filter decision (filterRuleList.matches for this entry) dominates every store to memory that outlives the callback (walker, file list, anything behind a pointer) and every write to the wire buffer: nothing about an entry is recorded before it is known to be transmitted", 1)
+	wf := p.Func(pkgSender, "scopedWalker", "walkFn")
+	if wf == nil {
+		r.Unk(rule, "walkFn", "-", "anchor not found")
+		return
+	}
+	var decide ssa.CallInstruction
+	allCalls(wf, func(c ssa.CallInstruction) {
+		if sc := c.Common().StaticCallee(); sc != nil && sc.Name() == "matches" && pkgPathOfFunc(sc) == pkgSender {
+			if decide == nil {
+				decide = c
+			}
+		}
+	})
+	if decide == nil {
+		r.Unk(rule, "filter decision", p.Pos(wf.Pos()), "walkFn does not call the rule matcher any more: re-read where entries are filtered")
+		return
+	}
+	localBase := func(a ssa.Value) bool {
+		for i := 0; i < 8; i++ {
+			switch x := a.(type) {
+			case *ssa.FieldAddr:
+				a = x.X
+			case *ssa.IndexAddr:
+				a = x.X
+			case *ssa.Alloc:
+				return true
+			default:
+				return false
+			}
+		}
+		return false
+	}
+	bad := 0
+	for _, b := range wf.Blocks {
+		for _, in := range b.Instrs {
+			switch x := in.(type) {
+			case *ssa.Store:
+				if localBase(x.Addr) {
+					continue
+				}
+				if !InstrDominates(decide, x) {
+					bad++
+					r.Bad(rule, "walkFn store before the filter decision", p.Pos(x.Pos()), "state that outlives the callback is written before the rules were consulted for this entry: an excluded entry changes what is sent for the next one")
+				}
+			case ssa.CallInstruction:
+				n := calleeName(x)
+				if len(n) > 0 && (hasPrefixAny(n, "(*"+pkgWire+".Buffer).Write", "(*"+pkgWire+".Conn).Write")) && !InstrDominates(decide, x) {
+					bad++
+					r.Bad(rule, "walkFn wire write before the filter decision", p.Pos(instrPos(x)), "bytes of an entry are buffered before the rules were consulted for it")
+				}
+			}
+		}
+	}
+	if bad == 0 {
+		r.OK(rule, "walkFn: decision first", p.Pos(instrPos(decide)), "")
+	}
+}
+
+func hasPrefixAny(s string, ps ...string) bool {
+	for _, q := range ps {
+		if len(s) >= len(q) && s[:len(q)] == q {
+			return true
+		}
+	}
+	return false
 }
